@@ -13,9 +13,10 @@ git diff -- opfython > $out/patch.diff
 cp demo_$id.py $out/demo.py 2>/dev/null
 t=$(/venv/bin/python -m pytest -q -p no:cacheprovider 2>&1 | tail -1)
 /venv/bin/python demo_$id.py > $out/demo_with.log 2>&1; with=$?
-git stash -q -- opfython
+# (not git stash: the stash stack is shared by all worktrees of /repo)
+git apply -R $out/patch.diff
 /venv/bin/python demo_$id.py > $out/demo_without.log 2>&1; without=$?
-git stash pop -q
+git apply $out/patch.diff
 echo "tests: $t | demo with change: exit $with | without: exit $without"
 res=""
 for c in $checks; do
